@@ -39,6 +39,9 @@ class Ctx:
         if k not in self.names:
             self.counter += 1
             nm = f'{sort.name}!new{self.counter}'
+            while nm in self.refs:
+                self.counter += 1
+                nm = f'{sort.name}!new{self.counter}'
             self.names[k] = nm
             self.refs[nm] = obj
             self.keep.append(obj)
@@ -291,11 +294,13 @@ class ConcreteRun:
 
 
 def run_concrete(contract: Contract, data: dict, factories=None, abstracters=None,
-                 check_requires=True, timeout_s=5) -> ConcreteRun:
+                 check_requires=True, timeout_s=5, preset=None, concrete_ghost=None) -> ConcreteRun:
     """run the real function of `contract` on the concrete `data` ({param: plain data}) and evaluate the
     contract's clauses on the observed pre/post states"""
     out = ConcreteRun()
     ctx = Ctx(factories, abstracters)
+    if preset is not None:
+        preset(ctx)
     fn, owner, kind = real_function(contract)
     args = {}
     for p, s in contract.params.items():
@@ -307,6 +312,8 @@ def run_concrete(contract: Contract, data: dict, factories=None, abstracters=Non
     for p, s in contract.params.items():
         v = l0.lift(s, pre_data[p])
         names0[p] = Alias(st0.new_cell(v)) if isinstance(v, (VSet, VList, VMap)) else v
+    if concrete_ghost is not None:
+        concrete_ghost(st0, l0, pre_data)
     old = Scope(st0, names0)
     facts0 = l0.distinct_facts()
     if check_requires:
@@ -353,6 +360,8 @@ def run_concrete(contract: Contract, data: dict, factories=None, abstracters=Non
     for p, s in contract.params.items():
         v = l1.lift(s, post_data[p])
         names1[p] = Alias(st1.new_cell(v)) if isinstance(v, (VSet, VList, VMap)) else v
+    if concrete_ghost is not None:
+        concrete_ghost(st1, l1, post_data)
     extra = {'seg': old}
     clauses = []
     base = contract.name
